@@ -227,6 +227,10 @@ func (s Schema) JSONLookup(token string) (interface{}, error) {
 		return &ex, nil
 	}
 
+	if token == "$schema" && s.Schema != "" {
+		return string(s.Schema), nil
+	}
+
 	r, _, err := jsonpointer.GetForToken(s.SchemaProps, token)
 	if r != nil || (err != nil && !strings.HasPrefix(err.Error(), "object has no field")) {
 		return r, err
